@@ -9,10 +9,16 @@ Ghost state (threaded through all contracts as ``s.G``):
   G.nres[t]   number of results of t handed to the scheduler
   G.ckpt[t]   1 once the checkpoint of t has been deleted
   G.started   number of trials started so far (== next trial id)
+  G.nrun      number of trials that occupy a worker; G.nw = n_workers; G.stop = 1 once the stopping criterion held
 """
 from pyvc.spec import *
 
-GHOST = dict(sched=TotalMap(Int, Int), phase=TotalMap(Int, Int), nres=TotalMap(Int, Int), ckpt=TotalMap(Int, Int), started=Int)
+try:  # native side; symbolically resolved from /repo's source
+    from syne_tune.backend.trial_status import Trial
+except ImportError:
+    pass
+
+GHOST = dict(sched=TotalMap(Int, Int), phase=TotalMap(Int, Int), nres=TotalMap(Int, Int), ckpt=TotalMap(Int, Int), started=Int, nrun=Int, nw=Int, stop=Int, last=TotalMap(Int, Str))
 
 RESULT_T = Rec(epoch=Int, loss=Real)
 DECISION_T = Enum("CONTINUE", "PAUSE", "STOP")
@@ -132,10 +138,9 @@ class I_sched_metric_mode:
 @contract("iface:TrialBackend.new_trial_id")
 class I_be_new_trial_id:
     params = dict(self=None)
-    returns = Int
 
-    def ensures(old, s, result):
-        return {"sequence": result == s.G.started}
+    def make_result(s):
+        return s.G.started
 
 
 @contract("iface:TrialBackend.start_trial")
@@ -145,14 +150,25 @@ class I_be_start_trial:
     returns = Obj("Trial")
 
     def requires(s):
-        return {"checkpoint-exists": s.checkpoint_trial_id is None or s.G.ckpt[s.checkpoint_trial_id] == 0}
+        return {
+            "checkpoint-exists": s.checkpoint_trial_id is None or s.G.ckpt[s.checkpoint_trial_id] == 0,
+            "worker-free": s.G.nrun < s.G.nw,
+            "not-after-stop-criterion": s.G.stop == 0,
+        }
 
     def effect(s):
         s.G.phase[s.G.started] = 1
         s.G.started = s.G.started + 1
+        s.G.nrun = s.G.nrun + 1
+
+    def make_result(s):
+        # (start_trial is called after the effect: the id just issued is started - 1)
+        return Trial(trial_id=s.G.started - 1, config=s.config, creation_time=None)
 
     def ensures(old, s, result):
         return {"id-issued-in-sequence": result.trial_id == old.G.started}
+
+    returns = None
 
 
 @contract("iface:TrialBackend.resume_trial")
@@ -162,10 +178,16 @@ class I_be_resume_trial:
     returns = Obj("Trial")
 
     def requires(s):
-        return {"only-paused-is-resumed": s.G.phase[s.trial_id] == 2, "checkpoint-exists": s.G.ckpt[s.trial_id] == 0}
+        return {
+            "only-paused-is-resumed": s.G.phase[s.trial_id] == 2,
+            "checkpoint-exists": s.G.ckpt[s.trial_id] == 0,
+            "worker-free": s.G.nrun < s.G.nw,
+            "not-after-stop-criterion": s.G.stop == 0,
+        }
 
     def effect(s):
         s.G.phase[s.trial_id] = 1
+        s.G.nrun = s.G.nrun + 1
         s.G.sched[s.trial_id] = 1  # the scheduler asked for the resume: a new run of the trial starts
 
     def ensures(old, s, result):
@@ -183,6 +205,7 @@ class I_be_stop_trial:
     def effect(s):
         s.G.phase[s.trial_id] = 3
         s.G.ckpt[s.trial_id] = 1  # with delete_checkpoints the checkpoint is gone (worst case)
+        s.G.nrun = s.G.nrun - 1
 
 
 @contract("iface:TrialBackend.pause_trial")
@@ -195,6 +218,7 @@ class I_be_pause_trial:
 
     def effect(s):
         s.G.phase[s.trial_id] = 2
+        s.G.nrun = s.G.nrun - 1
 
 
 @contract("iface:TrialBackend.stdout")
@@ -246,6 +270,25 @@ class I_cb_on_fetch:
 class I_ts_update:
     params = dict(self=None, trial_status_dict=None, new_results=None)
 
+    def effect(s):
+        # G.last[t]: status of trial t in the most recent update that mentioned it
+        for t, v in s.trial_status_dict.items():
+            s.G.last[t] = v[1]
+
+
+@contract("iface:TuningStatus.num_trials_failed")
+class I_ts_num_trials_failed:
+    """number of trials whose last reported status is Failed (each failed trial is reported once)"""
+
+    params = dict(self=None)
+    attribute = True
+
+    def make_result(s):
+        n = 0
+        for t in range(s.G.started):
+            n = n + ite(s.G.last[t] == "Failed", 1, 0)
+        return n
+
 
 @contract("iface:TrialBackend.busy_trial_ids")
 class I_be_busy_trial_ids:
@@ -258,3 +301,223 @@ class I_be_busy_trial_ids:
             "busy-are-running": forall(range(0, n), lambda i: s.G.phase[result[i][0]] == 1),
             "distinct": forall(range(0, n), lambda i: forall(range(0, n), lambda j: result[i][0] != result[j][0] if i < j else True)),
         }
+
+    def after(s, result):
+        # the back end's own view of the occupied workers is authoritative
+        s.G.nrun = len(result)
+
+
+# -- additional collaborators of Tuner.run ------------------------------------------------------------------
+# ghost for the loop: G.iter   number of evaluations of the stopping criterion so far
+#                     G.stop   1 once the criterion has answered True
+#                     G.nrun   number of trials that occupy a worker (started/resumed and not yet ended)
+#                     G.nw     n_workers
+#                     G.K      bound on loop iterations of the harness (the criterion answers True at iteration K)
+
+RUN_GHOST = dict(GHOST, iter=Lit(0), stop=Lit(0), nrun=Lit(0), nw=Int, K=Int, script=Int)
+# G.script directs the environment of the Tuner.run harness:
+#   0  free: statuses, reports, decisions, resumes and exhaustion are all arbitrary
+#   1  pause-and-resume: trials stay InProgress and report every poll; results delivered in the
+#      second loop iteration are answered PAUSE, all others CONTINUE; a paused trial is resumed at once
+RUN_GHOST["started"] = Lit(0)
+
+
+@contract("iface:StoppingCriterion.__call__")
+class I_stop_criterion:
+    params = dict(self=None, status=None)
+    returns = Bool
+
+    def effect(s):
+        s.G.iter = s.G.iter + 1
+
+    def ensures(old, s, result):
+        # the harness bounds the number of loop iterations: at the K-th evaluation the criterion holds
+        return {"bounded-run": implies(s.G.iter >= s.G.K, result), "sticky": implies(old.G.stop == 1, result)}
+
+    def after(s, result):
+        if result:
+            s.G.stop = 1
+
+
+@contract("iface:TrialBackend.fetch_status_results")
+class I_be_fetch_status_results:
+    """one entry per polled trial; statuses of polled trials are never Paused/Stopping (they are running for
+    the tuner); results belong to polled trials"""
+
+    params = dict(self=None, trial_ids=None)
+
+    def make_result(s):
+        d = dict()
+        res = []
+        for t in s.trial_ids:
+            if s.G.stop == 1:
+                st = "Completed"  # once the criterion held, running trials finish (the loop may wait for them)
+            elif s.G.script == 1:
+                st = "InProgress"
+            else:
+                st = arbitrary("status", Enum("InProgress", "Completed", "Failed", "Stopped"))
+            d[t] = (Trial(trial_id=t, config=dict(), creation_time=None), st)
+            if s.G.script == 1 or s.G.stop == 1 or arbitrary("reports", Bool):
+                res.append((t, {"epoch": arbitrary("epoch", Int), "loss": arbitrary("loss", Real)}))
+        return (d, res)
+
+    def after(s, result):
+        for t in s.trial_ids:
+            if result[0][t][1] != "InProgress":
+                s.G.nrun = s.G.nrun - 1  # the worker of a completed / failed / externally stopped trial is free
+
+
+@contract("iface:TrialBackend.stop_all")
+class I_be_stop_all:
+    params = dict(self=None)
+
+
+@contract("iface:TuningStatus.mark_running_job_as_stopped")
+class I_ts_mark:
+    params = dict(self=None)
+
+
+@contract("iface:TunerCallback.on_tuning_start")
+class I_cb_on_tuning_start:
+    params = dict(self=None, tuner=None)
+
+
+@contract("iface:TunerCallback.on_tuning_end")
+class I_cb_on_tuning_end:
+    params = dict(self=None)
+
+
+@contract("iface:TunerCallback.on_loop_start")
+class I_cb_on_loop_start:
+    params = dict(self=None)
+
+
+@contract("iface:TunerCallback.on_loop_end")
+class I_cb_on_loop_end:
+    params = dict(self=None)
+
+
+@contract("iface:Path.mkdir")
+class I_path_mkdir:
+    params = dict(self=None, exist_ok=None, parents=None)
+    defaults = dict(exist_ok=False, parents=False)
+
+
+# -- scheduler of the bounded Tuner.run harness: concrete trial ids ------------------------------------------
+
+try:
+    from syne_tune.optimizer.scheduler import TrialSuggestion
+except ImportError:
+    pass
+
+
+@contract("iface:RunScheduler.on_trial_result")
+class I_rs_on_trial_result(I_sched_on_trial_result):
+    returns = None
+
+    def make_result(s):
+        if s.G.script == 1:
+            return "PAUSE" if s.G.iter == 2 else "CONTINUE"
+        return arbitrary("decision", Enum("CONTINUE", "PAUSE", "STOP"))
+
+
+@contract("iface:RunScheduler.on_trial_remove")
+class I_rs_on_trial_remove(I_sched_on_trial_remove):
+    pass
+
+
+@contract("iface:RunScheduler.on_trial_complete")
+class I_rs_on_trial_complete(I_sched_on_trial_complete):
+    pass
+
+
+@contract("iface:RunScheduler.on_trial_error")
+class I_rs_on_trial_error(I_sched_on_trial_error):
+    pass
+
+
+@contract("iface:RunScheduler.on_trial_add")
+class I_rs_on_trial_add(I_sched_on_trial_add):
+    pass
+
+
+@contract("iface:RunScheduler.metric_names")
+class I_rs_metric_names(I_sched_metric_names):
+    pass
+
+
+@contract("iface:RunScheduler.metric_mode")
+class I_rs_metric_mode(I_sched_metric_mode):
+    pass
+
+
+@contract("iface:RunScheduler.suggest")
+class I_rs_suggest:
+    """an arbitrary well-behaved scheduler: resumes some trial it paused, or starts a new one, or gives up"""
+
+    params = dict(self=None, trial_id=None)
+
+    def requires(s):
+        return {"next-id": s.trial_id == s.G.started}
+
+    def make_result(s):
+        for t in range(s.G.started):
+            if s.G.phase[t] == 2 and s.G.ckpt[t] == 0:
+                if s.G.script == 1 or arbitrary("resume", Bool):
+                    return TrialSuggestion.resume_suggestion(t)
+        if s.G.script != 1 and arbitrary("exhausted", Bool):
+            return None
+        return TrialSuggestion.start_suggestion({"x": 0})
+
+
+@contract("iface:RunBackend.resume_trial")
+class I_rb_resume_trial(I_be_resume_trial):
+    returns = None
+
+    def make_result(s):
+        return Trial(trial_id=s.trial_id, config=dict(), creation_time=None)
+
+
+@contract("iface:RunBackend.new_trial_id")
+class I_rb_new_trial_id(I_be_new_trial_id):
+    pass
+
+
+@contract("iface:RunBackend.start_trial")
+class I_rb_start_trial(I_be_start_trial):
+    pass
+
+
+@contract("iface:RunBackend.stop_trial")
+class I_rb_stop_trial(I_be_stop_trial):
+    pass
+
+
+@contract("iface:RunBackend.pause_trial")
+class I_rb_pause_trial(I_be_pause_trial):
+    pass
+
+
+@contract("iface:RunBackend.stdout")
+class I_rb_stdout(I_be_stdout):
+    pass
+
+
+@contract("iface:RunBackend.stderr")
+class I_rb_stderr(I_be_stderr):
+    pass
+
+
+@contract("iface:RunBackend.busy_trial_ids")
+class I_rb_busy_trial_ids(I_be_busy_trial_ids):
+    pass
+
+
+@contract("iface:RunBackend.fetch_status_results")
+class I_rb_fetch_status_results(I_be_fetch_status_results):
+    pass
+
+
+@contract("iface:RunBackend.stop_all")
+class I_rb_stop_all(I_be_stop_all):
+    pass
